@@ -225,7 +225,8 @@ int step(Model &m)
     {
       // read-modify-write of the single operand
       if (constant || (As == 3 && reg == 0)) { m.why = "constant or immediate as destination"; return ST_EXCLUDED; }
-      if (As == 0 && (reg == 0 || reg == 1 || reg == 2) ) { if (reg != 2 || bw) { m.why = "PC/SP/SR.b as RMW destination"; return ST_EXCLUDED; } }
+      if (As == 0 && (reg == 0 || reg == 1)) { m.why = "PC/SP as RMW destination"; return ST_EXCLUDED; }
+      if (As == 0 && reg == 2 && (bw || o != 1)) { m.why = "flag-setting or byte RMW instruction on SR"; return ST_EXCLUDED; }
     }
     if ((o == 4 || o == 5) && reg == 1) { m.why = "PUSH/CALL with SP as operand"; return ST_EXCLUDED; }
     if (m.r[1] & 1) { if (o == 4 || o == 5) { m.why = "odd SP"; return ST_EXCLUDED; } }
@@ -270,7 +271,10 @@ int step(Model &m)
         res = (d >> 1) | (cin ? sign : 0);
         set_flag(m, F_C, d & 1);
         set_nz(m, res, bw);
-        m.dc_sr = F_V;      // SLAU144 says reset, SLAU049 "set if initial destination positive and initial carry set"
+        // SLAU144 says V is reset, SLAU049 "set if initial destination positive and initial carry set":
+        // not compared in lockstep; the model itself follows the newer guide
+        set_flag(m, F_V, false);
+        m.dc_sr = F_V;
         break;
       }
       case 1:
@@ -307,6 +311,9 @@ int step(Model &m)
   if (opc == 0x4130) { m.nested--; }
   if (dreg == 3 && Ad == 1) { m.why = "x(R3) as destination"; return ST_EXCLUDED; }
   if (bw && Ad == 0 && (dreg == 0 || dreg == 1)) { m.why = "byte operation on PC/SP"; return ST_EXCLUDED; }
+  // SR as the destination of an instruction that also sets the status bits: which of the two writes
+  // survives is not stated in the guides (MOV, BIC, BIS to SR do not touch the flags and are defined)
+  if (Ad == 0 && dreg == 2 && o != 4 && o != 12 && o != 13 && o != 9 && o != 11) { m.why = "flag-setting instruction with SR as destination"; return ST_EXCLUDED; }
   if (As == 3 && sreg == dreg && sreg != 0 && !is_const_src(sreg, As)) { m.why = "auto-incremented source register is also the destination"; return ST_EXCLUDED; }
   if (As >= 2 && sreg == 0 && As == 2) { m.why = "@PC as source"; return ST_EXCLUDED; }
   uint16_t mask = bw ? 0xff : 0xffff, sign = bw ? 0x80 : 0x8000;
